@@ -74,13 +74,10 @@ def step (_ : Unit) (op impl : String) : Unit × StepOut := Id.run do
   let mut fails : List (String × String × String) := []
   -- a panic / fatal error that escaped from the code under test ended the worker process (round 5)
   if w.head? == some "run" && impl.startsWith "crash=" then
-    -- known finding C01-uquic-initial-coalesced-overflow: a spec-driven client coalesces a Handshake / 1-RTT packet behind
-    -- a uQUIC-built Initial whose trailing datagram padding is not counted; encryptPacket slices past the packet buffer
-    let cl := (field op "cl=").getD "?"
-    let overflow := cl != "plain" && (impl.splitOn "slice_bounds_out_of_range").length > 1 && (impl.splitOn "encryptPacket").length > 1
+    -- (regression: corpus/C01/e2estream/initial-coalesced-overflow.ops — a spec-driven client that coalesced a packet
+    -- behind a zero-padded Initial sliced past the packet buffer in encryptPacket; fixed in /repo 9faccbf)
     return ((), { model := impl, tags := ["crash"],
-                  fails := [("e2e_no_crash", if overflow then "uquic_initial_coalesced_overflow" else "-",
-                             s!"the process running the endpoints died: {impl}")] })
+                  fails := [("e2e_no_crash", "-", s!"the process running the endpoints died: {impl}")] })
   if w.head? != some "run" || impl == "bad-op" || impl.startsWith "setup-error" then
     return ((), { model := impl, tags := ["bad"], fails := if impl.startsWith "setup-error" then [("e2e_setup", "-", impl)] else [] })
   let cl := (field op "cl=").getD "?"
